@@ -26,7 +26,7 @@ WRAP = 65535
 CHEAP = ("generic", "read1", "write1", "bitwrite", "read2", "write2", "slc_read", "slc_write")
 
 
-def make_world(kind):
+def make_world(kind, extra=None):
     import pycomm3
 
     if kind == "slc":
@@ -43,6 +43,8 @@ def make_world(kind):
         d = pycomm3.CIPDriver("10.0.0.1/bp/0")
     else:
         proj = projgen.build("P2", 0, reduced=True)
+        if extra:
+            extra(proj)
         ctl = logix.LogixController(proj, "v32")
         t = enip.Target(ctl, enip.Policy(large_fo="refuse08"), keep_cip=False, keep_seqs=True)  # 500-byte connection: cheap fragmentation
         w = net.World(t, io_budget=10**10)
@@ -317,7 +319,9 @@ def shards(tier, seed):
     big = BIG_CALLS if tier == "thorough" else BIG_CALLS[:2]
     return [("sweep", op) for op in ALL_OPS] + [("mixed", k) for k in ("logix", "slc")] + [("bigcall", op, k) for k in big for op in ("read", "write")] \
         + [("bigcall", op, k) for k in (WRAP, WRAP - 1) for op in ("read-packets", "write-packets")] \
-        + [("between", k) for k in (WRAP - 1, WRAP)] + [("rawcounts",)] \
+        + [("between", k) for k in (WRAP - 1, WRAP)] + [("rawcounts",)] + [("threads", k) for k in ("logix", "cip", "slc")] \
+        + [("bigcall", "write-packets-bit", k) for k in (WRAP, WRAP - 1)] + [("bigcall", "write-packets-bit", WRAP, "debuglog"), ("bigcall", "write-packets", WRAP - 1, "debuglog"), ("bigcall", "read-packets", WRAP, "debuglog")] \
+        + [("bigcall", f"fragwrap-{pers}", k) for pers in ("m800", "v32") for k in (WRAP - 2, WRAP - 1, WRAP, WRAP + 1)] + [("bigcall", "fragwrap-m800", k, "debuglog") for k in (WRAP - 2, WRAP - 1, WRAP, WRAP + 1)] + [("bigcall", "fragwrap-v32", k, "debuglog") for k in (WRAP - 1, WRAP)] \
         + [("fresh", pers, it) for pers in ("m800", "v32", "v20") for it in (False, True)] \
         + [("fresh", "v32", True, "debuglog"), ("sweep", "readfrag", "debuglog"), ("sweep", "writefrag", "debuglog"), ("sweep", "bitmerge", "debuglog")]
 
@@ -361,6 +365,66 @@ def run_shard(shard, tier, seed):
                 rep.violation("sequence/explicit-counts", f"three packets created with the explicit counts {counts!r}: the wire carried {seqs!r}, target flagged {flagged[:1]!r} ({outs!r})", {"op": "rawcounts", "phase": None})
         call(d.close)
         w.__exit__()
+    elif shard[0] == "threads":
+        # one driver, one connection, used from several threads strictly one after the other (every thread is joined or idle before the next
+        # step): the connection has ONE history, whoever sends
+        import queue
+        import threading
+
+        kind = shard[1]
+        t, w, d, r = make_world(kind)
+        ops = operations(d, kind, t)
+        names = [n for n in ops if n in CHEAP or n in ("bitmerge", "readfrag2", "slc_proctype")]
+        call(ops[names[0]])
+        conn = conn_of(t)
+
+        def fresh_thread(fn):
+            box = []
+            th = threading.Thread(target=lambda: box.append(call(fn)))
+            th.start()
+            th.join()
+            return box[0] if box else ("foreign", "thread", "no result")
+
+        jobs, results = queue.Queue(), queue.Queue()
+
+        def worker():
+            while True:
+                fn = jobs.get()
+                if fn is None:
+                    return
+                results.put(call(fn))
+        pool = [threading.Thread(target=worker, daemon=True) for _ in range(2)]
+        for th in pool[:1]:
+            th.start()
+
+        def pooled(fn):
+            jobs.put(fn)
+            return results.get()
+        n_ev, n0, steps = len(t.events), len(conn.seqs), 0
+        runners = (("main", call), ("new-thread", fresh_thread), ("main", call), ("worker-thread", pooled), ("new-thread", fresh_thread), ("worker-thread", pooled))
+        for a in names:
+            for b in names:
+                for i, (who, run) in enumerate(runners):
+                    nm = a if i % 2 == 0 else b
+                    w.io_budget = w.io_total + 20000
+                    before = len(conn.seqs)
+                    out = run(ops[nm])
+                    steps += 1
+                    seqs = conn.seqs[max(before - 1, 0):]
+                    dup = next((j for j, (x, y) in enumerate(zip(seqs, seqs[1:])) if x == y), None)
+                    ok = out[0] == "ok" and dup is None
+                    rep.case(("threads", kind, a, b, i), outcome=f"ok:{who}" if ok else "bad", calls=max(1, len(seqs) - 1))
+                    if not ok:
+                        rep.violation(f"sequence/threads/{'duplicate' if dup is not None else 'failed'}/{who}", f"{kind}: step {steps} ({nm} from the {who}): " + (f"count {seqs[dup]} sent twice in a row (counts {seqs[:6]})" if dup is not None else f"{out!r:.100}"),
+                                      {"op": "threads", "phase": None, "kind": kind})
+        jobs.put(None)
+        for tag, detail in t.events[n_ev:]:
+            if tag.startswith("C17"):
+                rep.violation("sequence/threads/duplicate-detected", f"{kind}: {detail}", {"op": "threads", "phase": None, "kind": kind})
+                break
+        rep.sample({"threads": kind, "steps": steps, "operations": names})
+        call(d.close)
+        w.__exit__()
     elif shard[0] == "between":
         # k unconnected messages (which carry no sequence count) between two connected ones: they must not move the counter round to where it was
         k = shard[1]
@@ -385,6 +449,49 @@ def run_shard(shard, tier, seed):
         w.__exit__()
     elif shard[0] == "fresh":
         fresh_histories(rep, shard[1], shard[2], tier)
+    elif shard[0] == "bigcall" and shard[1].startswith("fragwrap"):
+        # ONE read of k fragments (k = the counter's modulus and its neighbours; the controller hands out one byte per fragment) between
+        # single-packet requests of the same call: the continuation requests are created while the call is being sent, the other packets
+        # of the call before that
+        import pycomm3
+
+        _, op, k = shard
+        pers = op.split("-")[1]
+        proj = projgen.build("P2", 0, reduced=True)
+        proj.tag("wrap_sint", "SINT", (65535,), instance_id=998)
+        proj.tag("wrap_int", "INT", (32768,), instance_id=999)
+        ctl = logix.LogixController(proj, pers)
+        t = enip.Target(ctl, enip.Policy(large_fo="refuse08"), keep_cip=False, keep_seqs=True)
+        w = net.World(t, io_budget=10**10)
+        w.__enter__()
+        d = pycomm3.LogixDriver("10.0.0.1")
+        call(d.open)
+        call(d.read, "plain")
+        conn = conn_of(t)
+        text = f"wrap_sint{{{k}}}" if k <= 65535 else f"wrap_int{{{k // 2}}}"
+        for start in (30, WRAP - 5):
+            seq = d._sequence
+            for _ in range((start - 1 - conn.seqs[-1]) % WRAP):
+                next(seq)
+            call(d.read, "plain")
+            n0, n_ev = len(conn.seqs), len(t.events)
+            ctl.svc_log.clear()
+            ctl.force_rfrag = 1
+            w.io_budget = w.io_total + 40 * k
+            out = call(d.read, "plain", text, "plain2", "plain3.2")
+            ctl.force_rfrag = None
+            nfr = sum(1 for x in ctl.svc_log if x[0] == "readfrag")
+            seqs = conn.seqs[n0 - 1:]
+            dup = next((i for i, (a, b) in enumerate(zip(seqs, seqs[1:])) if a == b), None)
+            flagged = [e for e in t.events[n_ev:] if e[0].startswith("C17")]
+            ok = out[0] == "ok" and isinstance(out[1], list) and all(out[1]) and dup is None and not flagged and nfr == k
+            rep.case(("bigcall", op, k, start), outcome="ok" if ok else "bad", calls=len(seqs) - 1)
+            if not ok:
+                what = f"message #{dup + 1} of the call repeats the count {seqs[dup]} of the message before it" if dup is not None else (flagged[0][1] if flagged else f"{nfr} fragments (wanted {k}), result {out!r:.80}")
+                rep.violation(f"sequence/big-call/{op}/{'duplicate' if dup is not None or flagged else 'failed'}", f"{op}: one read of {k} fragments inside a call of four requests, counter at {seqs[0]} before the call: {what}", {"op": f"bigcall-{op}", "phase": start, "k": k})
+        rep.sample({"big_call": op, "fragments": k, "request": text})
+        call(d.close)
+        w.__exit__()
     elif shard[0] == "bigcall":
         _, op, k = shard
         t, w, d, r = make_world("logix")
@@ -410,6 +517,11 @@ def run_shard(shard, tier, seed):
                     reqs = ["big_int{230}"] * k
                     reqs = ["big_int{2100}"] + reqs if front else reqs + ["big_int{2100}"]
                     out = call(d.read, *reqs)
+                elif op == "write-packets-bit":
+                    # ... and a bit write (its own read-modify-write packet, sent after everything else of the call) instead of the fragmented one
+                    one = ("big_int{230}", [5] * 230)
+                    reqs = [("plain.3", True)] + [one] * k if front else [one] * k + [("plain.3", True)]
+                    out = call(d.write, *reqs)
                 else:
                     one, big = ("big_int{230}", [5] * 230), ("big_int{2100}", [6] * 2100)
                     reqs = [one] * k
@@ -419,7 +531,7 @@ def run_shard(shard, tier, seed):
             seqs = conn.seqs[n0 - 1:]
             dup = next((i for i, (a, b) in enumerate(zip(seqs, seqs[1:])) if a == b), None)
             flagged = [e for e in t.events[n_ev:] if e[0].startswith("C17")]
-            n_res = k + 1 if op.endswith("-packets") else k
+            n_res = k + 1 if "-packets" in op else k
             ok = out[0] == "ok" and isinstance(out[1], list) and len(out[1]) == n_res and all(out[1]) and dup is None and not flagged
             rep.case(("bigcall", op, k, start), outcome="ok" if ok else "bad", calls=len(seqs) - 1)
             if not ok:
@@ -502,6 +614,8 @@ def replay(r):
         rep.merge(rep2)
     elif r["op"] == "rawcounts":
         rep.merge(run_shard(("rawcounts",), "quick", 0))
+    elif r["op"] == "threads":
+        rep.merge(run_shard(("threads", r["kind"]), "quick", 0))
     elif r["op"] == "between":
         rep.merge(run_shard(("between", r["k"]), "quick", 0))
     elif r["op"] == "fresh":
